@@ -608,6 +608,14 @@ theorem C08_perm_history_bytes (ver : PyVal) (compose : Obj) (s : PyVal) (hs : M
    fun h h' ho => C08_perm_manifests _ _ _ rfl (C08_perm_history_modules s hs h h' ho).1,
    fun h h' ho => C08_perm_manifests _ _ _ rfl (C08_perm_history_extra_files s hs h h' ho).1⟩
 
+/-- **C08 (rpms histories): only the last write of a slot is content.**  A write that the NEXT call replaces (same slot
+`[variant][arch][srpm][nevra]`) leaves no trace: the mapping is the one built without it (equal, not only `JEq`), whatever the start
+mapping.  With `C08_perm_history_rpms` (a call may be moved next to the following call of its slot: no call of that slot stands
+between them) every overwritten write of a history can be dropped without changing the bytes. -/
+theorem C08_history_overwrite_rpms (s : PyVal) (a b : Mf.RpmsArgs) (t : List Mf.RpmsArgs) (hab : Mf.rpmsSlot a = Mf.rpmsSlot b)
+    (hb : Mf.rpmsSlot b ≠ Option.none) : Mf.runRpms s (a :: b :: t) = Mf.runRpms s (b :: t) := by
+  simp only [Mf.runRpms, List.foldl_cons, Mf.rpms_overwrite s a b hab hb]
+
 /-- **Refusal depends on the arguments only.**  On a freshly constructed manifest the outcome of every call of a history is the
 outcome of its precondition checks (`rpmsCheck` / `modulesCheck` / `extraCheck`, functions of the arguments): so the per-call
 outcomes of `C08_perm_history_*` are, from `{}`, the same function of the call in every rearrangement. -/
@@ -693,6 +701,9 @@ theorem C08_history_same_slot_witness :
     (JsonText.dumps (Mf.runModules Mf.empty [Mf.wM1, Mf.wM3]) != JsonText.dumps (Mf.runModules Mf.empty [Mf.wM3, Mf.wM1])) = true ∧
     (JsonText.dumps (Mf.runExtra Mf.empty [Mf.wE1, Mf.wE3]) != JsonText.dumps (Mf.runExtra Mf.empty [Mf.wE3, Mf.wE1])) = true := by
   decide +kernel
+
+/-- the hypotheses of `C08_history_overwrite_rpms` hold for two different calls -/
+example : Mf.rpmsSlot Mf.wR1 = Mf.rpmsSlot Mf.wR3 ∧ Mf.rpmsSlot Mf.wR3 ≠ Option.none ∧ Mf.wR1.path ≠ Mf.wR3.path := by decide +kernel
 
 theorem C08_history_modules_example_order :
     SameOrder Mf.modulesSlot [Mf.wM1, Mf.wMbad, Mf.wM2, Mf.wM3] [Mf.wM2, Mf.wM1, Mf.wMbad, Mf.wM3] :=
